@@ -31,6 +31,7 @@ func C20(ctx *core.Ctx) {
 	if !r.OK() {
 		return
 	}
+	c20NoClientSideDrop(ctx, r)
 	ctx.Rule("C20.R1", "shutdown order in Serve and in the drain helper", 9)
 	ctx.Rule("C20.R2", "worker accounting: Add(n) ≺ spawn n workers; every spawned body ends in Done; worker loop is a pure range over the queue", 5)
 	ctx.Rule("C20.R3", "single closer (Serve) and single sender (subscription handler) of the work queue", 2)
